@@ -937,6 +937,25 @@ def near(a: list[list[Fraction]], b: list[list[Fraction]]) -> str | None:
     return None
 
 
+def near_custom_unit(space, a: list[list[Fraction]], b: list[list[Fraction]]) -> str | None:
+    """`lib.unit_samples` of CustomDOE = `transform_vect` of the given samples, computed in floats as
+    `(x - lb) / (ub - lb)`: the subtraction cancels, the absolute error is about `eps (|x| + |lb|) / (ub - lb)`.
+    Compared with the exact model up to the guard scaled by that condition number (e.g. bounds -10000 and
+    -9999.99: 2e6)."""
+    comps = flat(space)
+    if len(a) != len(b):
+        return f"{len(b)} rows, model {len(a)}"
+    for i, (ra, rb) in enumerate(zip(a, b)):
+        if len(ra) != len(rb) or len(ra) != len(comps):
+            return f"row {i}: widths {len(rb)} vs model {len(ra)}"
+        for j, (x, y) in enumerate(zip(ra, rb)):
+            _, l, u = comps[j]
+            cond = (abs(l) + abs(u)) / (u - l) if u > l else 1
+            if x != y and not abs(x - y) <= GUARD * max(1, abs(x), cond):
+                return f"row {i} col {j}: real {float(y)!r} model {float(x)!r}"
+    return None
+
+
 def custom_rows(req):
     return [[fr(t) for t in row] for row in req["opts"]["samples"]]
 
@@ -955,7 +974,7 @@ def case_lines(space, req, obs) -> list[tuple[str, str, Any]]:
             lines.append(("unit", doe_line(space, req, "unit", rows), {"x": obs["u"], "u": None, "int": obs["int_after_unit"], "lseed": None}))
     if obs.get("exec_exc") is None and "xs" in obs and obs["xs"].ndim == 2:
         rows = None if is_custom else fmat(obs["us"])
-        lines.append(("exec", custom_line(space, req, "exec") if is_custom else doe_line(space, req, "exec", rows), {"x": obs["xs"], "u": None if is_custom else rows, "us": obs["us"], "int": obs["int_after_exec"], "lseed": obs["lseed_after_exec"], "db": obs["db"]}))
+        lines.append(("exec", custom_line(space, req, "exec") if is_custom else doe_line(space, req, "exec", rows), {"x": obs["xs"], "u": None if is_custom else rows, "custom": is_custom, "us": obs["us"], "int": obs["int_after_exec"], "lseed": obs["lseed_after_exec"], "db": obs["db"]}))
         if obs["xs"].shape[0]:
             lines.append(("db", "firstocc | " + rows_str(fmat(obs["xs"])), {"db": obs["db"]}))
     if "par_xs" in obs and obs["par_xs"].ndim == 2 and obs["par_xs"].shape[0]:
@@ -986,7 +1005,7 @@ def compare_line(space, tag, ans: str, payload) -> str | None:
         return f"{tag}: samples differ from the model: {msg}"
     if tag == "exec":
         us = fmat(payload["us"]) if np.asarray(payload["us"]).size else []
-        msg = near(parse_matrix(a["U"]), us)
+        msg = near_custom_unit(space, parse_matrix(a["U"]), us) if payload.get("custom") else near(parse_matrix(a["U"]), us)
         if msg:
             return f"exec: lib.unit_samples differ from the model: {msg}"
         msg = close_matrix(space, parse_matrix(a["S"]), real, payload.get("u"))
